@@ -956,11 +956,11 @@ func TestSelf(t *testing.T) {
 // TestEnum: every set-id/sticky combination on every kind of node that has a mode, through
 // every output writer, under both digests.
 func TestEnum(t *testing.T) {
-	if hx.Shard() != 0 {
-		t.Skip()
-	}
 	n := 0
 	for _, out := range []string{"localfs", "gnutar", "mtree"} {
+		if hx.Shard() != 0 {
+			break
+		}
 		for _, dg := range []string{"sha512-256", "sha256"} {
 			for bits := uint32(0); bits < 8; bits++ {
 				perm := bits<<9 | 0o750
@@ -979,7 +979,7 @@ func TestEnum(t *testing.T) {
 	}
 	// a non-empty directory with an epoch mtime followed by a sibling, at the root and one and two levels
 	// down, with every kind of node inside it and after it, through every pipeline that unpacks to disk
-	m := 0
+	m, idx := 0, 0
 	node := func(name, kind string, sec int64, kids ...fstree.Spec) fstree.Spec {
 		return fstree.Spec{Name: []byte(name), Kind: kind, Perm: 0o755, Sec: sec, Nsec: 5, Size: 2, Target: []byte("t"), Major: 1, Minor: 3, Kids: kids}
 	}
@@ -1006,6 +1006,9 @@ func TestEnum(t *testing.T) {
 						c := Case{Digest: "sha512-256", Input: p.input, TarFormat: "pax", AddRoot: p.addRoot, Via: p.via, Output: "localfs", DestFresh: p.nw,
 							Sizes: gen.Sizes{Min: 48, Avg: 64, Max: 256}, Store: "mem", N: 2,
 							Root: fstree.Spec{Perm: 0o755, Sec: 1_100_000_000, Kids: grp}}
+						if idx++; idx%hx.Shards() != hx.Shard() { // the enumeration is split over the shards
+							continue
+						}
 						if !hx.Case(t, spec, c) {
 							return
 						}
@@ -1016,7 +1019,10 @@ func TestEnum(t *testing.T) {
 		}
 	}
 	hx.AddNote("enumerated_epoch_shape_cases", m)
-	hx.Exhaustive("non-empty epoch-mtime directory followed by a sibling: depth 0..2 x 5 kinds inside x 5 kinds after x {direct, nested} x 6 disk-output pipelines")
+	hx.Exhaustive("non-empty epoch-mtime directory followed by a sibling: depth 0..2 x 5 kinds inside x 5 kinds after x {direct, nested} x 6 disk-output pipelines (split over the shards)")
+	if hx.Shard() != 0 {
+		return
+	}
 	hx.AddNote("enumerated_setid_cases", n)
 	hx.Exhaustive("all 8 setuid/setgid/sticky combinations on root, directory, file, char and block device x {localfs, gnutar, mtree} x {sha512-256, sha256}")
 }
